@@ -44,6 +44,7 @@ type H struct {
 	aborted   bool
 	known     int
 
+	sweep         map[string]int
 	leakConfirmed map[string]int
 	leakSeen      int
 	perSig        map[string]int
@@ -926,6 +927,133 @@ func (h *H) randomTriple() *tcase {
 	return c
 }
 
+// headerSweep: DCT frame/scan headers over component counts 1-4, sampling factors, baseline
+// and progressive frames and first-scan component subsets, JBIG2 page/region sizes and CCITT
+// widths, each with dimensions swept geometrically across the point where the buffers the
+// decoder has to allocate equal StreamBudget(rawLen): just below, the decode may allocate;
+// just above, it must refuse - whatever it charges, TotalAlloc must stay within the allowance.
+func (h *H) headerSweep() {
+	e, g := h.e, h.g
+	factors := []float64{0.93, 1.04, 1.2, 1.38}
+	if e.Thorough {
+		factors = []float64{0.93, 0.5, 0.7, 0.85, 1.01, 1.04, 1.1, 1.2, 1.3, 1.38, 1.5, 1.7, 1.95}
+	}
+	hvs := []byte{0x11, 0x21, 0x12, 0x22}
+	var layouts [][]byte
+	var rec func(cur []byte, n int)
+	rec = func(cur []byte, n int) {
+		if n == 0 {
+			layouts = append(layouts, append([]byte{}, cur...))
+			return
+		}
+		for _, x := range hvs {
+			rec(append(cur, x), n-1)
+		}
+	}
+	for n := 1; n <= 4; n++ {
+		rec(nil, n)
+	}
+	for _, y := range []byte{0x41, 0x42, 0x14, 0x44, 0x33, 0x31, 0x13} {
+		for _, c := range []byte{0x11, 0x21, 0x12, 0x22, 0x41} {
+			layouts = append(layouts, []byte{y, c, c}, []byte{y, c, c, y})
+		}
+	}
+	extra := e.Pick(0, 4000) // sampling factors 1..4 in both directions, at random
+	for i := 0; i < extra; i++ {
+		l := make([]byte, 1+g.intn(4))
+		for j := range l {
+			l[j] = byte(1+g.intn(4))<<4 | byte(1+g.intn(4))
+		}
+		layouts = append(layouts, l)
+	}
+	refused, swept, accepted := 0, 0, 0
+	for _, hv := range layouts {
+		n := len(hv)
+		all := make([]int, n)
+		for i := range all {
+			all[i] = i
+		}
+		h0, v0 := int(hv[0]>>4), int(hv[0]&15)
+		type mode struct {
+			prog bool
+			scan []int
+		}
+		modes := []mode{{false, []int{0}}, {true, all}, {true, []int{0}}}
+		if n > 1 {
+			modes = append(modes, mode{false, []int{n - 1}}, mode{true, []int{n - 1}}, mode{false, all[:n-1]})
+		}
+		// streaming baseline (the scan lists every component): only a stripe is held
+		h.chainCase(h.one("DCTDecode", parm{Kind: "null"}, jpegHeader(65535, 65535/8*8, hv, false, all), "jpeg header sweep"))
+		h.chainCase(h.one("DCTDecode", parm{Kind: "null"}, jpegHeader(65535, 16, hv, false, all), "jpeg header sweep"))
+		for _, m := range modes {
+			// bytes the decoder has to hold per MCU of the (square) MCU grid
+			per := 0
+			if m.prog {
+				for _, c := range m.scan {
+					per += 256 * int(hv[c]>>4) * int(hv[c]&15) // coefficient blocks of the scan's components
+				}
+			} else {
+				for _, x := range hv {
+					per += 64 * int(x>>4) * int(x&15) // full-image planes
+				}
+			}
+			for fi, f := range factors {
+				body := jpegHeader(16, 16, hv, m.prog, m.scan)
+				budget := float64(limits.StreamBudget(int64(len(body))))
+				side := int(math.Sqrt(f * budget / float64(per)))
+				w, ht := min(8*h0*side, 65535), min(8*v0*side, 65535)
+				c := h.one("DCTDecode", parm{Kind: "null"}, jpegHeader(w, ht, hv, m.prog, m.scan), "jpeg header sweep")
+				o, ok := h.triple(c, false)
+				swept++
+				if !ok {
+					return
+				}
+				if fi == 0 {
+					if float64(o.Alloc) < budget/2 {
+						refused++ // this layout or scan is refused for another reason: no point in sweeping it
+						break
+					}
+					accepted++
+				}
+			}
+		}
+	}
+	// JBIG2: page bitmap, region bitmap, or both together across the budget
+	for _, f := range factors {
+		for shape := 0; shape < 3; shape++ {
+			budget := float64(limits.StreamBudget(120))
+			for _, aspect := range []int{1, 16, 256} {
+				// bits = 8 * f * budget, w = aspect * h
+				hh := int(math.Sqrt(8 * f * budget / float64(aspect)))
+				ww := hh * aspect
+				var body []byte
+				switch shape {
+				case 0:
+					body = jbig2Sized(ww, hh, 8, 8)
+				case 1:
+					body = jbig2Sized(8, 8, ww, hh)
+				default:
+					hh = int(math.Sqrt(8 * f * budget / 2 / float64(aspect)))
+					body = jbig2Sized(hh*aspect, hh, hh*aspect, hh)
+				}
+				h.chainCase(h.one("JBIG2Decode", parm{Kind: "null"}, body, "jbig2 size sweep"))
+				swept++
+			}
+		}
+	}
+	// CCITT: the line buffers and the changing-element index grow with /Columns
+	for _, k := range []int64{-1, 0, 3} {
+		for _, cols := range []int64{1 << 20, 1<<20 - 1, 1040000, 1000000, 950000, 800000, 524288} {
+			for _, n := range []int{1, 200, 300} {
+				p := parm{Kind: "dict", D: []kv{{"K", pval{T: "i", I: k}}, {"Columns", pval{T: "i", I: cols}}, {"Rows", pval{T: "i", I: 2}}}}
+				h.chainCase(h.one("CCITTFaxDecode", p, bytes.Repeat([]byte{0x00, 0x10}, n), "ccitt width sweep"))
+				swept++
+			}
+		}
+	}
+	h.sweep = map[string]int{"cases": swept, "jpeg_layout_modes_refused": refused, "jpeg_layout_modes_swept_across_budget": accepted}
+}
+
 func (h *H) one(name string, p parm, body []byte, note string) *tcase {
 	c := &tcase{Names: []string{name}, Parms: []parm{p}, PField: "arr", Note: note}
 	c.setBody(body)
@@ -1210,6 +1338,9 @@ func main() {
 		h.chainCase(h.randomTriple())
 	}
 	phase("triples")
+	// headers whose claimed geometry straddles the stream budget, for every component layout
+	h.headerSweep()
+	phase("header sweep")
 	// headers claiming huge dimensions, extremely compressible bodies
 	nh := e.Pick(80, 1500)
 	for i := 0; i < nh && !h.aborted; i++ {
@@ -1277,10 +1408,11 @@ func main() {
 				"max_total_alloc":         h.maxAlloc,
 				"max_alloc_over_allowed":  h.maxRatio,
 				"watchdog":                "5 s + 50 us per input or output byte; a suspected violation is re-run three times in fresh processes",
-				"alloc_allowance":         "StreamBudget(rawLen) + 4*|out| + 1 MiB*(1+stages), against the TotalAlloc delta",
+				"alloc_allowance":         "StreamBudget(rawLen) + 4*|out| + 512 KiB + 128 KiB*stages, against the TotalAlloc delta",
 				"goroutine_grace":         "2 s after Close",
 				"run_cut_short_by_a_hang": h.aborted,
 				"known_pattern_leaks":     h.leakSeen,
+				"header_sweep":            h.sweep,
 				"failing_cases_by_signature (12 of each are recorded)": h.perSig,
 			},
 		})
